@@ -40,10 +40,45 @@ def harness_args(dir_, pin, extra):
             "--magic", PY_MAGIC, "--pyver", PY_VER] + extra
 
 
+ASAN_BIN = os.path.join(os.path.dirname(os.path.dirname(SIMC)), "..", "target-asan",
+                        "x86_64-unknown-linux-gnu", "sim", "simc")
+ASAN_BIN = os.path.normpath(ASAN_BIN)
+_asan_ok = None
+
+
+def build_asan():
+    """thorough tier: an AddressSanitizer build of simc (nightly has the runtime); a dangling
+    access is then reported at the access itself, not only when it happens to fault"""
+    global _asan_ok
+    if _asan_ok is not None:
+        return _asan_ok
+    env = dict(os.environ)
+    env["CARGO_NET_OFFLINE"] = "true"
+    env["CARGO_TARGET_DIR"] = os.path.normpath(os.path.join(os.path.dirname(ASAN_BIN), "..", ".."))
+    env["RUSTFLAGS"] = "-Zsanitizer=address"
+    t0 = time.time()
+    p = subprocess.run(["cargo", "+nightly", "build", "-p", "simc", "--profile", "sim", "--offline",
+                        "--target", "x86_64-unknown-linux-gnu"],
+                       cwd=os.path.join(os.path.dirname(os.path.dirname(SIMC)), ".."), env=env,
+                       capture_output=True, text=True)
+    _asan_ok = p.returncode == 0 and os.path.exists(ASAN_BIN)
+    log(f"[build] simc (AddressSanitizer): {'ok' if _asan_ok else 'unavailable'} {time.time() - t0:.1f}s")
+    if not _asan_ok:
+        log(p.stderr[-1500:])
+    return _asan_ok
+
+
 def run_simc(binary, dir_, pin, extra, timeout=120):
     env = dict(os.environ)
     env["MALLOC_PERTURB_"] = "165"       # freed buckets are poisoned: a dangling read misbehaves at once
+    if binary == ASAN_BIN:
+        env["ASAN_OPTIONS"] = "detect_leaks=0:abort_on_error=0"
+        timeout = 600
     res, rc = run_json([binary] + harness_args(dir_, pin, extra), timeout=timeout, env=env)
+    if "AddressSanitizer" in res.get("stderr", "") or (binary == ASAN_BIN and res.get("class", "").startswith("exit(")):
+        import re
+        m = re.search(r"ERROR: AddressSanitizer: (\S+)", res.get("stderr", ""))
+        res["class"] = "memory_error(" + (m.group(1) if m else "?") + ")"
     return res
 
 
@@ -105,7 +140,7 @@ def run_python(pyc, timeout=30):
 # one project, all its runs
 # ------------------------------------------------------------------------------------
 
-def explore_project(prop, proj, sched_seeds, w, d, want_seq=True, want_exec=False, extra_args=None):
+def explore_project(prop, proj, sched_seeds, w, d, want_seq=True, want_exec=False, extra_args=None, asan_every=0):
     """runs the reference build(s) and one simulated build per schedule seed; returns a list of
     run records {kind, seed, res, out}"""
     extra_args = extra_args or []
@@ -124,7 +159,10 @@ def explore_project(prop, proj, sched_seeds, w, d, want_seq=True, want_exec=Fals
         if want_exec and i < 2:
             rec["pyc"] = os.path.join(pdir, f"out_{i}.pyc")
             extra += ["--pyc", rec["pyc"]]
-        rec["res"] = run_simc(SIMC, pdir, w, extra)
+        use_asan = asan_every and i % asan_every == asan_every - 1
+        if use_asan:
+            rec["kind"] = "swarm_asan"
+        rec["res"] = run_simc(ASAN_BIN if use_asan else SIMC, pdir, w, extra)
         runs.append(rec)
     for r in runs:
         if r["res"].get("class") == "done" and r["res"].get("dir") != MOUNT_AT:
@@ -249,10 +287,11 @@ def signature(prop, proj, bad):
     return sorted(out)
 
 
-def explore_one(prop, seed, idx, k, w, d):
+def explore_one(prop, seed, idx, k, w, d, asan_every=0):
     proj = gen_project(seed, idx, GEN_OPTS[prop])
     seeds = schedule_seeds(seed, prop, idx, k)
-    runs, pdir = explore_project(prop, proj, seeds, w, d, want_seq=True, want_exec=(prop == "C20"))
+    runs, pdir = explore_project(prop, proj, seeds, w, d, want_seq=True, want_exec=(prop == "C20"),
+                                 asan_every=asan_every)
     bad = judge(prop, proj, runs)
     # determinism self-check on a sample: same seed, same binary => same event-log hash
     mismatch = None
@@ -277,8 +316,12 @@ def explore_one(prop, seed, idx, k, w, d):
             "resampled": 1 if (idx % 25 == 0 and seeds) else 0}
 
 
+_ASAN_MIN = {"on": 0}
+
+
 def still_fails(prop, proj, seeds, w, d, sig, extra=None):
-    runs, _ = explore_project(prop, proj, seeds, w, d, want_seq=True, want_exec=(prop == "C20"))
+    runs, _ = explore_project(prop, proj, seeds, w, d, want_seq=True, want_exec=(prop == "C20"),
+                              asan_every=_ASAN_MIN.get(id(proj), 0) or proj.get("_asan", 0))
     bad = judge(prop, proj, runs)
     return bool(bad) and (set(signature(prop, proj, bad)) & set(sig)), bad
 
@@ -288,6 +331,8 @@ def minimise(prop, proj, seeds, bad, w, d, budget_s=120):
     the same violation class persists; deterministic given its inputs"""
     t_end = time.time() + budget_s
     sig = signature(prop, proj, bad)
+    if any(b.get("run") == "swarm_asan" for b in bad):
+        proj = dict(proj, _asan=1)       # the failure needs the sanitizer build: use it for every schedule
     # 1. keep only schedule seeds that matter (at most the failing ones)
     fseeds = [b["seed"] for b in bad if b.get("seed")]
     seeds = sorted(set(fseeds))[:2] if fseeds else []
@@ -498,10 +543,11 @@ def run_check(prop, tier, seed, replay=None):
     if replay:
         return replay_file(prop, replay, report)
     nproj, k = TIERS[prop][tier]
+    asan_every = 4 if (tier == "thorough" and build_asan()) else 0
     pool = Pool(prop.lower())
     wall_cap = t0 + (600 if tier == "quick" else 3600)
     try:
-        results = pool.map(lambda idx, w, d: explore_one(prop, seed, idx, k, w, d),
+        results = pool.map(lambda idx, w, d: explore_one(prop, seed, idx, k, w, d, asan_every),
                            list(range(nproj)), deadline=wall_cap)
         results = [r for r in results if r is not None]
         # determinism self-check
@@ -538,7 +584,7 @@ def run_check(prop, tier, seed, replay=None):
                 "engine": "simc", "verif_seed": seed, "project_index": m["idx"],
                 "workload": {"files": m["proj"]["files"], "tags": m["proj"]["tags"],
                              "errors": m["proj"].get("errors", []), "expect": m["proj"].get("expect")},
-                "schedule_seeds": m["seeds"],
+                "schedule_seeds": m["seeds"], "asan": bool(m["proj"].get("_asan")),
                 "expect": {"clauses": m["sig"], "first": m["bad"][0] if m["bad"] else None},
             })
             report.violation(f'clauses={m["sig"]} shape={m["orig_shape"]} '
@@ -623,11 +669,12 @@ def replay_file(prop, path, report):
     proj = {"files": rp["workload"]["files"], "tags": rp["workload"]["tags"],
             "errors": rp["workload"].get("errors", []), "expect": rp["workload"].get("expect") or {"result": None},
             "flags": {}}
+    use_asan = 1 if (rp.get("asan") and build_asan()) else 0
     pool = Pool(prop.lower(), workers=1)
     try:
         def go(_, w, d):
             runs, _pd = explore_project(prop, proj, rp["schedule_seeds"], w, d, want_seq=True,
-                                        want_exec=(prop == "C20"))
+                                        want_exec=(prop == "C20"), asan_every=use_asan)
             return judge(prop, proj, runs)
         bad = pool.map(go, [0])[0]
     finally:
